@@ -259,6 +259,8 @@ def run(R):
     R.floor('unfit_keys_tried', 100)
     R.floor('post_set_int_key', 1000)
     R.floor('empty_maps', 3)
+    R.floor('history_steps', 100)
+    R.floor('history_transitions', 12, 'set')
 
 
 def _case(R, M, w, keys, vk, rng, keyform='int', how='with', nrandom=1, full_routes=True, shape=''):
@@ -358,6 +360,8 @@ def _run(R, M, vks, rng, quick):
         _guard(R, 'key-serializer', lambda: _ks_keys(R, M, rng))
         R.case(None, n=3)
 
+    _histories(R, M, vks, rng, quick)
+
     # ---- keys that do not fit
     for w in [1, 2, 3, 7, 8, 9, 16, 32, 64, 255, 256, 267, 1000]:
         good = sorted({rng.getrandbits(w) for _ in range(3)})
@@ -373,6 +377,10 @@ def _run(R, M, vks, rng, quick):
         long_strs = ['1' + '0' * w, '1' * (w + 1), '1' + u(rng.getrandbits(w), w), '1' + '0' * (w + 7)]
         attempts += [('bitstr', s, lambda hm, s=s: hm.set(s, 1)) for s in long_strs]
         attempts += [('key-serializer', b, lambda hm, b=b: _with_ks(hm, b)) for b in bad_ints[:6]]
+        if w < 267:
+            from pytoniq_core.boc.address import Address
+            for a in (Address((0, rng.randbytes(32))), Address((-1, bytes(32))), Address((0, bytes(31) + b'\x01'))):
+                attempts.append(('address', a.to_str(False), lambda hm, a=a: hm.set(a, 1)))
         for form, desc, f in attempts:
             hm = M.HashMap(w).with_uint_values(8)
             for g in good:
@@ -395,6 +403,54 @@ def _run(R, M, vks, rng, quick):
                         'a refused key changed the map', W)
             R.counters['oracle_evaluations'] += 1
             R.case(mon.fp('unfit', w, form, str(desc)))
+
+
+def _histories(R, M, vks, rng, quick):
+    """multi-step use of one HashMap object: serialise, mutate through every mutator (new key / overwrite / both entry points), serialise again;
+    every serialisation must denote the map as it is at that moment (no state carried over from an earlier serialise)"""
+    byname = {v.name: v for v in vks}
+    for it in range(40 if quick else 600):
+        w = rng.choice([1, 2, 3, 4, 8, 16, 32, 64, 256])
+        vk = rng.choice([byname['uint8'], byname['int16'], byname['coins'], byname['uint1']])
+        hm = M.new_map(w, vk, 'with')
+        model = {}
+        steps = []
+        for step in range(rng.randint(3, 9)):
+            op = rng.choice(['add-set_int_key', 'add-set', 'overwrite-set_int_key', 'overwrite-set', 'serialize', 'serialize', 'parse-own'])
+            if op.startswith('add') or (op.startswith('overwrite') and not model):
+                k = rng.getrandbits(w)
+                v = vk.gen(rng)
+                (hm.set_int_key if op.endswith('set_int_key') else hm.set)(k, v)
+                model[k] = v
+            elif op.startswith('overwrite'):
+                k = rng.choice(sorted(model))
+                v = vk.gen(rng)
+                (hm.set_int_key if op.endswith('set_int_key') else hm.set)(k, v)
+                model[k] = v
+            steps.append(op)
+            W = {'width': w, 'value_kind': vk.name, 'steps': list(steps), 'model': {str(k): mon.srepr(v, 30) for k, v in sorted(model.items())[:20]}}
+            st, cell = mon.call(hm.serialize)
+            if st == 'exc':
+                R.violation(f'history-serialize-raises-{type(cell).__name__}', f'serialize raised {cell!r} after {steps}', W)
+                break
+            if not model:
+                R.check(cell is None, 'history-empty-not-none', 'empty map serialised to a cell', W)
+                continue
+            if cell is None:
+                R.violation('history-nonempty-none', 'non-empty map serialised to None', W)
+                break
+            st, got = mon.call(lambda: M.HashMap.parse(cell.begin_parse(), w, value_deserializer=vk.load))
+            ok = st == 'ok' and got == dict(sorted(model.items())) and list(got) == sorted(model)
+            prev = steps[-2] if len(steps) > 1 else 'start'
+            if not ok:
+                R.violation(f'history-stale-after-{steps[-1]}', f'after {steps} the serialised dictionary does not denote the current map '
+                            f'(got {mon.srepr(got, 200)})', W)
+                break
+            R.counters['oracle_evaluations'] += 1
+            R.count('history_steps')
+            R.cover('history_transitions', (prev, op))
+        R.count('histories')
+        R.case(mon.fp('hist', w, vk.name, tuple(steps), tuple(sorted(model))), sample={'width': w, 'steps': steps} if it < 2 else None)
 
 
 def _guard(R, name, f):
